@@ -14,8 +14,8 @@ CLAIMED = {
             'Field round trip real encoder -> real decoder (and an independent reader) of a message holding one record of every kind, with every TTL, class word, flush / QU bit, id and SRV number symbolic, over five name sets; kernel lemmas on the real _write_utf / _decode_labels_at_offset (label of symbolic length 1..300), _write_link_to_name (pointer to any offset 12..8950), character-strings 0..255 octets, NSEC bitmap for every type 0..255.',
             'Trusted: as C05; packer stand-ins (vkit/wire.py), SymPacket view of the element list (vkit/pkt.py), bit-operation handlers. Label contents / suffix-sharing beyond the name sets are not symbolic; splitting and rollback are C14.'),
     'C02': ('DESIGN.md 4 C02', E1,
-            'Totality, linear work budget, name length and faithfulness against a strict RFC 1035 reader of the real DNSIncoming on datagrams whose payload octets are all solver variables (12 + P octets, P <= 5 quick / 7 thorough; record templates with symbolic owner octets, RDLENGTH and rdata octets), every tiling of labels / pointers / fields exhausted.',
-            'Trusted: as C01. Datagrams longer than the bound - in particular the 2 KB pointer chain that exhausts the interpreter stack - are not reached; label text is opaque (octets compared).'),
+            'Totality, linear work budget, name length and faithfulness against a strict RFC 1035 reader of the real DNSIncoming on datagrams whose payload octets are all solver variables (12 + P octets, P <= 5 quick / 7 thorough; record templates with symbolic owner octets, RDLENGTH and rdata octets), every tiling of labels / pointers / fields exhausted; plus enumerated deep compression graphs (3..4470 pointer cells in a row, forward and backward, id / label octet / TTL and one pointer octet symbolic).',
+            'Trusted: as C01. Datagrams with more than 7 free octets are reached only through the enumerated pointer-chain shapes (these found the RecursionError of the original tree, since fixed); label text is opaque (octets compared).'),
     'C03': ('DESIGN.md 4 C03', E1,
             'Answer sets, per-answer additionals, TTLs and flush marking of QueryHandler.async_response equal a declarative reference responder for every enumerated (registry script, questions, known answers) shape, for all service TTLs 1..2^31-1 and known-answer TTLs 0..2^32-1 (half-TTL boundary solver-decided).',
             'Trusted: as C05 plus the reference responder in vkit/responder.py. Question types and names are enumerated, not symbolic.'),
@@ -54,8 +54,8 @@ CLAIMED = {
             'Per datagram built by the real packets(): octets == accounted size <= 8966, <= 1460 unless it holds a single entry, id / flags / TC rule, header counts == entries present, every entry read back (independent reader following compression pointers through symbolic offsets) with its own owner name, type, RDLENGTH and rdata names; over the sequence every entry exactly once in order - for messages of <= 7 entries whose TXT rdata lengths 0..8900 are solver variables.',
             'Trusted: as C01. Entries that cannot fit 8966 octets alone, and hundreds of entries, are outside.'),
     'C15': ('DESIGN.md 4 C15', E1,
-            'Nothing escapes the real AsyncListener.datagram_received, and a canary query / announcement delivered afterwards still work, for datagrams whose payload octets are solver variables (plain templates and templates where a valid answerable question precedes the symbolic octets) from every source port; oversize guard for every length 0..70000; echo-safety lemma on the real label guards, confirmed on concrete bytes through the real listener.',
-            'Trusted: as C02. One adversarial datagram of bounded length per obligation; the 2 KB pointer-chain RecursionError is not reached. One known finding (legacy-unicast echo of an invalid-UTF-8 label) is listed in known_findings.json.'),
+            'Nothing escapes the real AsyncListener.datagram_received, and a canary query / announcement delivered afterwards still work, for datagrams whose payload octets are solver variables (plain templates and templates where a valid answerable question precedes the symbolic octets) from every source port, and for the enumerated deep pointer-chain datagrams of C02; oversize guard for every length 0..70000; echo-safety lemma on the real label guards, confirmed on concrete bytes through the real listener.',
+            'Trusted: as C02. One adversarial datagram per obligation. Both escaping exceptions named in the property (pointer-chain RecursionError, echo of an invalid-UTF-8 label) were found by these obligations and are repaired by fix: commits (known_findings.json, fixed).'),
     'C16': ('DESIGN.md 4 C16', E1,
             'Metamorphic equivalence on each symbolic path: a history run with every datagram repeated dgap ms later (0..999) and the same history without repeats (identical random draws) produce identical multicast transmissions, browser callbacks and record-listener calls, and identical unicast replies except for a repeated QU reply; offsets, dgap, TTLs, sighting ages symbolic.',
             'Trusted: as C05; datagrams are opaque byte tokens mapped to prebuilt messages (the listener guard and dispatch are the real code); no loop-back of the host own multicast.'),
